@@ -57,6 +57,9 @@ enum GOp {
     Unpause { by: usize },
     /// allow (AllowList) / block (BlockList) when `on`, disallow / unblock otherwise
     SetList { user: usize, on: bool, by: usize },
+    /// probe on a rebuilt copy: 600000 ledgers pass without a call; pause flag, list membership and
+    /// balances must read the same
+    IdleProbe,
 }
 
 #[derive(Clone, Debug, PartialEq, Eq, Hash)]
@@ -143,9 +146,13 @@ impl Gated {
                 };
                 (f, (i.a(*user), i.a(*by)).into_val(e), i.a(*by))
             }
+            GOp::IdleProbe => return None,
         })
     }
     fn exec(&self, i: &GInst, op: &GOp) -> bool {
+        if matches!(op, GOp::IdleProbe) {
+            return false;
+        }
         let (f, args, signer) = self.call(i, op).expect("op unavailable");
         call_signed(&i.e, &i.c, f, args, &[signer]).is_ok()
     }
@@ -254,6 +261,7 @@ impl World for Gated {
             }
         }
         v.retain(|op| self.call(i, op).is_some());
+        v.push(GOp::IdleProbe);
         v
     }
 
@@ -269,6 +277,7 @@ impl World for Gated {
             GOp::Unpause { .. } => "unpause",
             GOp::SetList { on: true, .. } => "list-on",
             GOp::SetList { on: false, .. } => "list-off",
+            GOp::IdleProbe => "idle-probe",
         }
         .to_string()
     }
@@ -277,6 +286,15 @@ impl World for Gated {
     }
 
     fn step(&self, i: &mut GInst, m: &mut GState, op: &GOp, cx: &mut StepCtx<Self>) -> Result<bool, Violation> {
+        if matches!(op, GOp::IdleProbe) {
+            let copy = cx.rebuild();
+            envx::advance(&copy.e, 600_000);
+            let mut o = self.observe(&copy)?;
+            o.allow = m.allow; // allowances expire (C02's subject)
+            ensure!(o == *m, "state-survives-idle", "600000 ledgers without any call changed the state: before {:?}, after {:?}", m, o);
+            cx.stats.count("idle-probes", 1);
+            return Ok(false);
+        }
         let pre = m.clone();
         let ok = self.exec(i, op);
         if !ok {
@@ -348,6 +366,7 @@ impl World for Gated {
                 ensure!(*by == 3 || !matches!(self.kind, Kind::AllowExample | Kind::BlockExample), "list-authority", "{:?} by a non-manager succeeded", op);
                 x.listed[*user] = *on;
             }
+            GOp::IdleProbe => unreachable!(),
         }
         let post = self.observe(i)?;
         cx.stats.count("getter-comparisons", (3 * N + 1) as u64);
@@ -566,6 +585,246 @@ impl World for Capped {
 }
 
 // ---------------------------------------------------------------------------------------------
+// capped token whose cap moves (wrapper): set_cap to any value incl. below the current supply
+
+#[derive(Clone, Debug, PartialEq, Eq)]
+enum KOp {
+    Mint(i128),
+    Burn(i128),
+    SetCap(i128),
+}
+struct CapMoves;
+struct KInst {
+    e: Env,
+    c: Address,
+    u: Address,
+}
+
+impl CapMoves {
+    fn exec(&self, i: &KInst, op: &KOp) -> bool {
+        match op {
+            KOp::Mint(a) => call_mocked(&i.e, &i.c, "mint", (i.u.clone(), *a).into_val(&i.e)),
+            KOp::Burn(a) => call_mocked(&i.e, &i.c, "burn", (i.u.clone(), *a).into_val(&i.e)),
+            KOp::SetCap(c) => call_mocked(&i.e, &i.c, "set_cap", (*c,).into_val(&i.e)),
+        }
+        .is_ok()
+    }
+}
+
+impl World for CapMoves {
+    type Op = KOp;
+    type Model = (i128, i128); // (supply, cap in force)
+    type Inst = KInst;
+    fn name(&self) -> String {
+        "capped-wrapper-with-moving-cap".into()
+    }
+    fn fresh(&self, _s: usize) -> (KInst, (i128, i128)) {
+        let e = envx::mk_env(100);
+        let u = Address::generate(&e);
+        let c = e.register(wrap::cap::CapTok, (5i128,));
+        (KInst { e, c, u }, (0, 5))
+    }
+    fn ops(&self, _i: &KInst, m: &(i128, i128), _d: usize) -> Vec<KOp> {
+        let (supply, cap) = *m;
+        let room = cap.saturating_sub(supply);
+        let mut v = vec![];
+        let mut push = |op: KOp, v: &mut Vec<KOp>| {
+            if !v.contains(&op) {
+                v.push(op)
+            }
+        };
+        for a in [0, 1, 2, room - 1, room, room.saturating_add(1), supply - cap, supply.saturating_sub(cap).saturating_add(1)] {
+            if a >= 0 {
+                push(KOp::Mint(a), &mut v);
+            }
+        }
+        for a in [1, supply] {
+            if a > 0 {
+                push(KOp::Burn(a), &mut v);
+            }
+        }
+        for c in [-1, 0, supply - 2, supply - 1, supply, supply.saturating_add(1), 5, i128::MAX] {
+            push(KOp::SetCap(c), &mut v);
+        }
+        v
+    }
+    fn kind(&self, op: &KOp) -> String {
+        match op {
+            KOp::Mint(_) => "capped-mint",
+            KOp::Burn(_) => "burn",
+            KOp::SetCap(_) => "set_cap",
+        }
+        .into()
+    }
+    fn apply(&self, i: &mut KInst, op: &KOp) {
+        self.exec(i, op);
+    }
+    fn step(&self, i: &mut KInst, m: &mut (i128, i128), op: &KOp, cx: &mut StepCtx<Self>) -> Result<bool, Violation> {
+        let (supply, cap) = *m;
+        if !self.exec(i, op) {
+            if let KOp::Mint(a) = op {
+                if *a > 0 && supply > cap {
+                    cx.stats.count("capped mint refused while the supply is already above the cap", 1);
+                }
+            }
+            return Ok(false);
+        }
+        let get = |f: &str| -> Result<i128, Violation> { Ok(i128::try_from_val(&i.e, &view(&i.e, &i.c, f, SVec::new(&i.e)).map_err(|x| Violation::new("getter", format!("{f}: {x:?}")))?).unwrap()) };
+        let want = match op {
+            KOp::Mint(a) => {
+                ensure!(supply.checked_add(*a).map(|s| s <= cap).unwrap_or(false), "cap-exceeded", "a cap-checked mint of {} at supply {} succeeded with cap {} in force", a, supply, cap);
+                cx.stats.count("capped mint accepted", 1);
+                (supply + a, cap)
+            }
+            KOp::Burn(a) => (supply - a, cap),
+            KOp::SetCap(c) => {
+                ensure!(*c >= 0, "negative-cap", "set_cap({}) succeeded", c);
+                (supply, *c)
+            }
+        };
+        let got = (get("total_supply")?, get("cap")?);
+        ensure!(got == want, "lockstep", "after {:?}: (supply, cap) = {:?}, expected {:?}", op, got, want);
+        ensure!(!matches!(op, KOp::Mint(_)) || got.0 <= got.1, "cap-exceeded", "after {:?}: supply {} above cap {}", op, got.0, got.1);
+        *m = got;
+        Ok(true)
+    }
+    fn key(&self, i: &KInst) -> [u8; 32] {
+        envx::storage_digest(&i.e, false)
+    }
+    fn model_digest(&self, m: &(i128, i128)) -> u64 {
+        vh::engine::dig(m)
+    }
+}
+
+// ---------------------------------------------------------------------------------------------
+// pausable macros stacked with the authorization macros, both orders
+
+#[derive(Clone, Debug, PartialEq, Eq)]
+enum SOp {
+    Pause,
+    Unpause,
+    Call(usize),
+}
+const STACKED: [(&str, bool, bool); 9] = [
+    // (entry point, takes the caller argument, runs only while paused)
+    ("owner_then_pause", false, false),
+    ("pause_then_owner", false, false),
+    ("admin_then_pause", false, false),
+    ("pause_then_admin", false, false),
+    ("role_then_pause", true, false),
+    ("pause_then_role", true, false),
+    ("hasrole_then_pause", true, false),
+    ("owner_then_whenpaused", false, true),
+    ("whenpaused_then_owner", false, true),
+];
+struct Stacked;
+struct SInst {
+    e: Env,
+    c: Address,
+    member: Address,
+}
+#[derive(Clone, Debug, PartialEq, Eq, Hash)]
+struct SModel {
+    paused: bool,
+    counts: [u32; 9],
+}
+
+impl Stacked {
+    fn exec(&self, i: &SInst, op: &SOp) -> bool {
+        let e = &i.e;
+        match op {
+            SOp::Pause => call_mocked(e, &i.c, "pause", SVec::new(e)),
+            SOp::Unpause => call_mocked(e, &i.c, "unpause", SVec::new(e)),
+            SOp::Call(k) => {
+                let (f, with_caller, _) = STACKED[*k];
+                if with_caller {
+                    call_mocked(e, &i.c, f, (i.member.clone(),).into_val(e))
+                } else {
+                    call_mocked(e, &i.c, f, SVec::new(e))
+                }
+            }
+        }
+        .is_ok()
+    }
+}
+
+impl World for Stacked {
+    type Op = SOp;
+    type Model = SModel;
+    type Inst = SInst;
+    fn name(&self) -> String {
+        "stacked-macros".into()
+    }
+    fn fresh(&self, _s: usize) -> (SInst, SModel) {
+        let e = envx::mk_env(100);
+        let owner = Address::generate(&e);
+        let member = Address::generate(&e);
+        let c = e.register(wrap::stacked::Stacked, (owner, member.clone()));
+        (SInst { e, c, member }, SModel { paused: false, counts: [0; 9] })
+    }
+    fn ops(&self, _i: &SInst, _m: &SModel, _d: usize) -> Vec<SOp> {
+        let mut v = vec![SOp::Pause, SOp::Unpause];
+        v.extend((0..STACKED.len()).map(SOp::Call));
+        v
+    }
+    fn kind(&self, op: &SOp) -> String {
+        match op {
+            SOp::Pause => "pause".into(),
+            SOp::Unpause => "unpause".into(),
+            SOp::Call(k) => (if STACKED[*k].2 { "when_paused-call" } else { "when_not_paused-call" }).into(),
+        }
+    }
+    fn apply(&self, i: &mut SInst, op: &SOp) {
+        self.exec(i, op);
+    }
+    fn step(&self, i: &mut SInst, m: &mut SModel, op: &SOp, cx: &mut StepCtx<Self>) -> Result<bool, Violation> {
+        let ok = self.exec(i, op);
+        match op {
+            SOp::Pause => {
+                ensure!(ok == !m.paused, "pause-alternation", "pause ok={} while paused={}", ok, m.paused);
+                if ok {
+                    m.paused = true;
+                }
+            }
+            SOp::Unpause => {
+                ensure!(ok == m.paused, "pause-alternation", "unpause ok={} while paused={}", ok, m.paused);
+                if ok {
+                    m.paused = false;
+                }
+            }
+            SOp::Call(k) => {
+                let (f, _, when_paused) = STACKED[*k];
+                let allowed = m.paused == when_paused;
+                if ok {
+                    ensure!(allowed, "paused-entry-point-ran", "{} ran although the contract is {}", f, if m.paused { "paused" } else { "not paused" });
+                    m.counts[*k] += 1;
+                    cx.stats.count("stacked entry point ran", 1);
+                } else {
+                    // the owner / admin / role holder authorizes: nothing but the pause state can refuse
+                    ensure!(!allowed, "works-when-allowed", "{} was refused although the contract is {} and the caller is entitled", f, if m.paused { "paused" } else { "not paused" });
+                    cx.stats.count("stacked entry point refused by the pause state", 1);
+                }
+            }
+        }
+        if ok {
+            let p = bool::try_from_val(&i.e, &view(&i.e, &i.c, "paused", SVec::new(&i.e)).unwrap()).unwrap();
+            ensure!(p == m.paused, "lockstep", "paused() = {} model {}", p, m.paused);
+            for k in 0..STACKED.len() {
+                let n = u32::try_from_val(&i.e, &view(&i.e, &i.c, "count", (k as u32,).into_val(&i.e)).unwrap()).unwrap();
+                ensure!(n == m.counts[k], "lockstep", "{} ran {} times, model {}", STACKED[k].0, n, m.counts[k]);
+            }
+        }
+        Ok(ok)
+    }
+    fn key(&self, i: &SInst) -> [u8; 32] {
+        envx::storage_digest(&i.e, false)
+    }
+    fn model_digest(&self, m: &SModel) -> u64 {
+        vh::engine::dig(m)
+    }
+}
+
+// ---------------------------------------------------------------------------------------------
 // upgrade / migrate
 
 const V2_WASM: &[u8] = include_bytes!("/repo/examples/upgradeable/testdata/upgradeable_v2_example.wasm");
@@ -704,13 +963,16 @@ fn main() {
             }
             r.world(&PausableEx, &Bounds::new(tier.pick(6, 9), 30));
             r.world(&Capped, &Bounds::new(tier.pick(5, 7), tier.pick(10, 60)));
+            r.world(&CapMoves, &Bounds::new(tier.pick(6, 8), tier.pick(10, 60)));
+            r.world(&Stacked, &Bounds::new(tier.pick(3, 4), tier.pick(10, 60)));
             r.world(&Upgr { migratable: true }, &Bounds::new(tier.pick(6, 9), 30));
             r.world(&Upgr { migratable: false }, &Bounds::new(tier.pick(4, 6), 30));
             if let Some(rep) = r.report() {
                 rep.require(
-                    &["transfer", "transfer_from", "approve", "burn", "burn_from", "mint", "pause", "unpause", "list-on", "list-off", "when_not_paused-call", "when_paused-call", "capped-mint", "upgrade", "migrate"],
-                    &["transfer", "transfer_from", "approve", "burn", "burn_from", "mint", "pause", "unpause", "list-on", "when_not_paused-call", "when_paused-call", "capped-mint", "upgrade", "migrate"],
+                    &["transfer", "transfer_from", "approve", "burn", "burn_from", "mint", "pause", "unpause", "list-on", "list-off", "when_not_paused-call", "when_paused-call", "capped-mint", "set_cap", "upgrade", "migrate"],
+                    &["transfer", "transfer_from", "approve", "burn", "burn_from", "mint", "pause", "unpause", "list-on", "when_not_paused-call", "when_paused-call", "capped-mint", "set_cap", "upgrade", "migrate"],
                 );
+                rep.require_counter(&["idle-probes", "capped mint refused while the supply is already above the cap", "stacked entry point ran", "stacked entry point refused by the pause state"]);
             }
         },
     );
